@@ -51,9 +51,10 @@ impl DefaultMetricLogReader {
             let count = buf_reader.read_line(&mut line)?;
             if count == 0 {
                 let should_continue = (prev_size + items.len()) < max_lines;
-                return Ok((Vec::new(), should_continue));
+                return Ok((items, should_continue));
             }
-            let item = base::MetricItem::from_string(&line);
+            // `read_line` keeps the line terminator, which is not part of the item
+            let item = base::MetricItem::from_string(line.trim_end_matches(|c| c == '\n' || c == '\r'));
 
             match item {
                 Ok(item) => {
